@@ -23,6 +23,36 @@ def sequential(case):
     return fails
 
 
+def default_parameters(case):
+    """creating and stepping other default-parameter solvers must not change what a default-parameter solver does"""
+    import random
+    from iOpt.solver import Solver
+    rng = random.Random(case['seed'])
+    fails = []
+
+    def mk(n):
+        lo, hi = [-1.0] * n, [1.0] * n
+        return H.make_problem(n, lo, hi, {'kind': 'quad', 'c': [0.3] * n})
+    n0 = case['dims'][0]
+    pa = mk(n0); sa = Solver(pa)
+    with H.quiet():
+        sa.DoGlobalIteration(6)
+    solo = [tuple(y) for y, _ in pa.log]
+    others = []
+    for n in case['dims'][1:]:
+        pb = mk(n); sb = Solver(pb); others.append((pb, sb))
+        with H.quiet():
+            sb.DoGlobalIteration(2)
+    for n in [n0] + case['dims'][2:]:
+        pc = mk(n); sc = Solver(pc)
+        with H.quiet():
+            sc.DoGlobalIteration(6)
+        if n == n0 and [tuple(y) for y, _ in pc.log] != solo:
+            fails.append('a default-parameter solver for a %d-variable problem behaves differently after other solvers (dimensions %r) were created: first trial %r vs %r'
+                         % (n, case['dims'][1:], pc.log[0][0], solo[0]))
+    return fails
+
+
 def run(chk):
     rng = H.rng_for(chk.seed, 'C12')
     thorough = chk.tier == 'thorough'
@@ -64,6 +94,13 @@ def run(chk):
             found += chk.violation('not-isolated', fails[0], {'kind': 'interleave', 'case': case})
             if found > 2:
                 break
+    # solvers created WITHOUT a parameters object (they use the library's default), problems of 1..7 variables
+    for _ in range(12 if thorough else 4):
+        fails = O.guarded(default_parameters, {'dims': [rng.choice([1, 2, 3]), rng.choice([6, 7]), rng.choice([2, 3, 4])], 'seed': rng.randrange(10 ** 6)})
+        chk.evaluations += 1
+        if fails:
+            found += chk.violation('not-isolated', fails[0], {'kind': 'default-params'})
+            break
     chk.sample({'interleaving': {'schedule': [0, 1, 1, 0], 'solvers': 2}})
     chk.cov['exhaustive'] = False
 
